@@ -117,6 +117,42 @@ func main() {
 			{"full(3,6)x9", 9, 3, 6, nil, 15, []int{0}, 0},
 		}
 	}
+	if r.NViolationSigs() == 0 && !r.Expired() {
+		// four-phase histories: grow to full height, shrink until the root chain
+		// collapses, regrow through another root split, shrink to nothing
+		type ph struct {
+			min, max, nobj, norders, n2max int
+			points                         bool
+		}
+		phs := []ph{{2, 3, 13, 4, 4, false}, {2, 4, 13, 4, 4, false}, {2, 4, 13, 4, 4, true}}
+		if tier == "thorough" {
+			phs = []ph{{2, 3, 13, 6, 5, false}, {2, 3, 13, 6, 5, true}, {2, 4, 13, 6, 5, false}, {2, 4, 13, 6, 5, true}, {2, 5, 16, 6, 5, false}, {3, 6, 16, 6, 6, false}, {3, 5, 16, 6, 6, true}}
+		}
+		var pd []interface{}
+		for _, p := range phs {
+			if r.Expired() || r.NViolationSigs() > 0 {
+				break
+			}
+			t0 := time.Now()
+			u := rtreemc.NewUniverse(p.nobj, p.min, p.max)
+			kind := "boxes"
+			if p.points {
+				u = rtreemc.NewPointsUniverse(p.nobj, p.min, p.max)
+				kind = "points"
+			}
+			e := &rtreemc.Explorer{U: u, R: r, CheckState: rtreemc.CheckC11}
+			ps := e.Phases(seedOrders(p.nobj)[:p.norders], p.n2max)
+			r.AddStates(ps.Distinct)
+			r.AddTransitions(ps.Ops)
+			name := fmt.Sprintf("phases(%d,%d)x%d-%s", p.min, p.max, p.nobj, kind)
+			pd = append(pd, map[string]interface{}{"regime": name, "histories": ps.Histories, "states_visited": ps.States, "distinct_states": ps.Distinct, "operations": ps.Ops, "orders": p.norders, "n2max": p.n2max})
+			fmt.Printf("  %s: histories=%d visited=%d distinct=%d ops=%d %.0fs\n", name, ps.Histories, ps.States, ps.Distinct, ps.Ops, time.Since(t0).Seconds())
+			if r.Expired() {
+				r.Cap("wall budget expired in the four-phase regime " + name)
+			}
+		}
+		r.Set("phase_regimes", pd)
+	}
 	var details []interface{}
 	for _, g := range regs {
 		if r.Expired() {
@@ -176,42 +212,6 @@ func main() {
 		if r.Expired() {
 			r.Cap("wall budget expired in the sequence regime")
 		}
-	}
-	if r.NViolationSigs() == 0 && !r.Expired() {
-		// four-phase histories: grow to full height, shrink until the root chain
-		// collapses, regrow through another root split, shrink to nothing
-		type ph struct {
-			min, max, nobj, norders, n2max int
-			points                         bool
-		}
-		phs := []ph{{2, 3, 13, 4, 4, false}, {2, 4, 13, 4, 4, false}, {2, 4, 13, 4, 4, true}}
-		if tier == "thorough" {
-			phs = []ph{{2, 3, 13, 6, 5, false}, {2, 3, 13, 6, 5, true}, {2, 4, 13, 6, 5, false}, {2, 4, 13, 6, 5, true}, {2, 5, 16, 6, 5, false}, {3, 6, 16, 6, 6, false}, {3, 5, 16, 6, 6, true}}
-		}
-		var pd []interface{}
-		for _, p := range phs {
-			if r.Expired() || r.NViolationSigs() > 0 {
-				break
-			}
-			t0 := time.Now()
-			u := rtreemc.NewUniverse(p.nobj, p.min, p.max)
-			kind := "boxes"
-			if p.points {
-				u = rtreemc.NewPointsUniverse(p.nobj, p.min, p.max)
-				kind = "points"
-			}
-			e := &rtreemc.Explorer{U: u, R: r, CheckState: rtreemc.CheckC11}
-			ps := e.Phases(seedOrders(p.nobj)[:p.norders], p.n2max)
-			r.AddStates(ps.Distinct)
-			r.AddTransitions(ps.Ops)
-			name := fmt.Sprintf("phases(%d,%d)x%d-%s", p.min, p.max, p.nobj, kind)
-			pd = append(pd, map[string]interface{}{"regime": name, "histories": ps.Histories, "states_visited": ps.States, "distinct_states": ps.Distinct, "operations": ps.Ops, "orders": p.norders, "n2max": p.n2max})
-			fmt.Printf("  %s: histories=%d visited=%d distinct=%d ops=%d %.0fs\n", name, ps.Histories, ps.States, ps.Distinct, ps.Ops, time.Since(t0).Seconds())
-			if r.Expired() {
-				r.Cap("wall budget expired in the four-phase regime " + name)
-			}
-		}
-		r.Set("phase_regimes", pd)
 	}
 	r.Set("regimes", details)
 	r.Finish()
